@@ -6,8 +6,8 @@ impl Txt for str { open spec fn tv(&self) -> Seq<char> { self@ } }
 impl Txt for usize { open spec fn tv(&self) -> Seq<char> { dec(*self) } }
 impl<X: Txt + ?Sized> Txt for &X { open spec fn tv(&self) -> Seq<char> { (**self).tv() } }
 
-/// T15: String from a string literal (`"lit".into()` / `.to_string()` / `.to_owned()`)
+/// T15: String from a string literal or a named string value (`x.into()` / `.to_string()` / `.to_owned()` / `String::from(x)`)
 #[verifier::external_body]
-pub fn str_into(s: &str) -> (r: String)
-    ensures r@ == s@
-{ s.to_owned() }
+pub fn txt_into<T: Txt>(s: T) -> (r: String)
+    ensures r@ == s.tv()
+{ unimplemented!() }
